@@ -33,6 +33,7 @@ ASSUMPTIONS = ["self.server is a normalised (host, port) tuple or a socket path"
 NOT_COVERED = ["TLS over UNIX sockets (the code never wraps them; the TLS clause is read for TCP)", "asynchronous (non-Exception) interruptions: C10",
                "'after any failed call the next call opens a fresh connection' is the conjunction of this contract (raising exit => self.sock is None) with C01 (lazy _connect in every exchange function)"]
 BUDGET = {"quick": 40, "thorough": 120}
+REPLAY_OUT_OF_REACH = True
 DEPENDS = ["C01"]      # "after any failed call the next call opens a fresh connection": every raising exit of the exchange functions
                        # (_misc_cmd, _store_cmd, _fetch_cmd) leaves self.sock None with the socket closed - their C01 contracts, re-proved here
 
@@ -212,6 +213,7 @@ class FSock:
         self._f("close")
     def sendall(self, b): pass
     def recv(self, n): return b""
+    def shutdown(self, how): raise OSError(107, "Transport endpoint is not connected")      # what a reset connection answers
 class FMod:
     AF_UNIX, SOCK_STREAM, AF_UNSPEC, IPPROTO_TCP, TCP_NODELAY = "unix", "stream", 0, 6, 1
     def __init__(self, naddr, fail_at): self.naddr, self.fail_at, self.step, self.socks = naddr, fail_at, 0, []
@@ -262,6 +264,17 @@ for server in (("h", 11211), "/tmp/s"):
         # stale error after a later address succeeded
         if raised is not None and isinstance(server, tuple) and naddr > 1:
             made = len(mod.socks)
+        if ok and raised is None:
+            # close(): the connection in use is really closed (once), also when the peer has already reset it, and dropped
+            mod.fail_at = 0
+            c.close()
+            still = [s for s in mod.socks if s.closed == 0]
+            if c.sock is not None or still:
+                ok, why = False, "close() left %d socket(s) open (self.sock=%r)" % (len(still), c.sock)
+            else:
+                c.close()          # idempotent
+                if any(s.closed > 1 for s in mod.socks if s.kind == "raw" and not any(w.inner is s for w in mod.socks if w.inner)):
+                    ok, why = False, "close() closed a socket twice"
         if not ok:
             bad = dict(server=repr(server), connect_timeout=CT, timeout=TO, addresses=naddr, no_delay=nd, tls=tls, keepalive=ka, fail_at_env_call=fail_at, what=why); break
       if bad: break
